@@ -79,8 +79,8 @@ def main():
              # a label with MORE values than the feature (orientation of the asymmetric score)
              ('N4-F1-label3', {'N': 4, 'NFeat': 1, 'FeatVals': '{0,1}', 'OtherVals': '{0,1}', 'LabelVals': '{0,1,2}'})]
     if tier != 'quick':
-        confs += [('N5-F2', {'N': 5, 'NFeat': 2, 'FeatVals': '{0,1,2}', 'OtherVals': '{0,1}', 'LabelVals': '{0,1}'}),
-                  ('N3-F3', {'N': 3, 'NFeat': 3, 'FeatVals': '{0,1,2}', 'OtherVals': '{0,1,2}', 'LabelVals': '{0,1,2}'}),
+        confs += [('N5-F2', {'N': 5, 'NFeat': 2, 'FeatVals': '{0,1}', 'OtherVals': '{0,1}', 'LabelVals': '{0,1}'}),
+                  ('N3-F3', {'N': 3, 'NFeat': 3, 'FeatVals': '{0,1,2}', 'OtherVals': '{0,1}', 'LabelVals': '{0,1,2}'}),
                   ('N5-F1-label3', {'N': 5, 'NFeat': 1, 'FeatVals': '{0,1}', 'OtherVals': '{0,1}', 'LabelVals': '{0,1,2}'})]
     names_cycle = list(STATEMENT_NAMES)
     for label, c in confs:
